@@ -555,6 +555,53 @@ def zero_limit_history(rng):
     return g.ops
 
 
+def rule_change_history(rng):
+    """C07: the rename rules are those of the run's own connect reply.  An application connects with one rule list, reports
+    metrics, is restarted by the collector at a harvest (409) and reconnects with another rule list (or none); possibly again"""
+    g = Gen(rng, napps=1, profile="allok", timeout=0)
+    g.ops.append("proc defapp k1 lic=LIC1 name=app1 redirect=- lang=php ver=1.1 host=h1 dt=0 span=10000 log=10000 custom=30000 docker=-")
+    g.apps.append("k1")
+
+    def rules():
+        if rng.random() < 0.25:
+            return "-"
+        pairs = ["%s>%s" % (nm, rng.choice(["z0", "z1", "z2", nm, rng.choice(["ma", "mb"])])) for nm in ["ma", "mb", "mc", "md"] if rng.random() < 0.6]
+        return ",".join(pairs) if pairs else "-"
+
+    def txn(run):
+        ms = []
+        for _ in range(rng.randint(1, 4)):
+            mn = rng.randint(0, 20)
+            ms.append("%s:%d:0:%d,%d,%d,%d,%d,%d" % (rng.choice(["ma", "mb", "mc", "md", "me"]), rng.randint(0, 1), rng.randint(1, 5), rng.randint(0, 50),
+                                                    rng.randint(0, 50), mn, rng.randint(mn, 40), rng.randint(0, 99)))
+        g.ops.append("proc txn %s name=t%d pid=1 prio=%d m=%s" % (run, rng.randint(1, 2), rng.randrange(1000000), ";".join(ms)))
+    g.ops.append("proc app k1 run=-")
+    epochs = rng.randint(2, 3)
+    for e in range(epochs):
+        g.nrun += 1
+        run = "r%d%s" % (g.nrun, "qwzjkvbxyp"[g.nrun % 10] * 3)
+        g.ops.append("proc reply k1 preconnect 0 200 host=coll-k1.example")
+        g.ops.append("proc reply k1 connect 0 200 run=%s rp=- ee=- ae=- ce=- se=- le=- srp=- sl=- rules=%s hdr=-" % (run, rules()))
+        for _ in range(rng.randint(1, 3)):
+            for _ in range(rng.randint(1, 4)):
+                txn(run)
+            last = e < epochs - 1 and rng.random() < 0.6
+            g.ops.append("proc trigger %s %d" % (run, DEFAULT))
+            for c in ["error_data", "sql_trace_data", "transaction_sample_data", "update_loaded_modules"]:
+                g.ops.append("proc reply %s %s 0 200" % (run, c))
+            if last:
+                break
+            g.ops.append("proc reply %s metric_data 0 %s" % (run, rng.choice(["200", "200", "503"])))
+            g.ops.append("proc reply %s metric_data 0 200" % run)
+        if e < epochs - 1:
+            g.ops.append("proc advance 31")
+            g.ops.append("proc reply %s metric_data 0 409" % run)      # restart: a new preconnect is launched at once
+            g.ops.append("proc state")
+    g.ops.append("proc state")
+    g.ops.append("proc cleanexit default=200")
+    return g.ops
+
+
 def overlap_history(rng):
     """C03: a second connect attempt is launched (back-off expired, agent asks again) while the first is still in flight;
     the two attempts are answered in either order with every combination of verdicts; then agents ask again"""
